@@ -174,6 +174,12 @@ func (e *Engine) addObl(kind, name string, tags []string, st *State, goal string
 	if n := e.nameCnt[full]; n > 1 {
 		full = fmt.Sprintf("%s#%d", full, n)
 	}
+	if len(tags) == 0 && kind != "reach" && kind != "cover" {
+		// an obligation nobody tagged (a call-site precondition in a function without tagged clauses, a captures or
+		// constructor obligation, an untagged postcondition that callers rely on) must still belong to some check:
+		// it goes with the no-panic property of the file it is in
+		tags = e.autoTags("nopanic", e.top)
+	}
 	if fl := e.envGuardFor(tags); fl != "" && goal != "true" {
 		goal = "(=> " + fl + " " + goal + ")"
 	}
